@@ -38,6 +38,9 @@ struct Case {
     /// tiny layer: run the single refresh of `path` under EVERY coefficient vector
     #[serde(default)]
     tiny_all: bool,
+    /// large group: n participants, threshold t, one dealer refresh and one distributed refresh removing a few
+    #[serde(default)]
+    large: bool,
 }
 
 #[derive(Clone)]
@@ -192,6 +195,7 @@ impl Prop for C10 {
                                         path: path.clone(),
                                         seed: format!("s{seed}"),
                                         tiny_all: false,
+                                        large: false,
                                     })
                                     .unwrap(),
                                 );
@@ -228,9 +232,15 @@ impl Prop for C10 {
                         if q.pow(draws) > tier.pick(400, 20000) {
                             continue;
                         }
-                        out.push(serde_json::to_value(Case { suite: suite.to_string(), n, t, idkind: IdKind::Seq, root: KeySrc::Dealer, path: vec![(k, cm)], seed: format!("s{seed}"), tiny_all: true }).unwrap());
+                        out.push(serde_json::to_value(Case { suite: suite.to_string(), n, t, idkind: IdKind::Seq, root: KeySrc::Dealer, path: vec![(k, cm)], seed: format!("s{seed}"), tiny_all: true, large: false }).unwrap());
                     }
                 }
+            }
+        }
+        for suite in REAL_SUITES {
+            let n = if suite == "ed448" { 16u16 } else { 40u16 };
+            for root in [KeySrc::Dealer] {
+                out.push(serde_json::to_value(Case { suite: suite.to_string(), n, t: 3, idkind: IdKind::U16x, root, path: vec![], seed: format!("s{seed}"), tiny_all: false, large: true }).unwrap());
             }
         }
         // simplest first
@@ -308,9 +318,57 @@ fn run_tiny_all<C: Suite>(c: &Case) -> Outcome {
     o
 }
 
+fn run_large<C: Suite>(c: &Case) -> Outcome {
+    let mut o = Outcome::new();
+    let tag = format!("C10/{}/large", C::name());
+    let grp = match make_group::<C>(c.root, c.n, c.t, c.idkind, &c.seed) {
+        Ok(g) => g,
+        Err(e) => {
+            o.fail(format!("{tag}/setup"), e);
+            return o;
+        }
+    };
+    let vk0 = *grp.pkp.verifying_key();
+    let root = Node::<C> { t: c.t, kps: grp.kps.clone(), pkp: grp.pkp.clone(), prev: None };
+    // remove the 2nd, a middle and the last participant
+    let keep: Vec<_> = grp.ids.iter().enumerate().filter(|(i, _)| *i != 1 && *i != grp.ids.len() / 2 && *i + 1 != grp.ids.len()).map(|(_, x)| *x).collect();
+    for (kind, members) in [(RKind::Dealer, grp.ids.clone()), (RKind::Dealer, keep.clone()), (RKind::Dkg, keep.clone())] {
+        let r = match kind {
+            RKind::Dealer => refresh_dealer::<C>(&root, &members, "large"),
+            RKind::Dkg => refresh_dkg::<C>(&root, &members, "large", c.t),
+        };
+        o.eval(true);
+        o.count("transitions", 1);
+        let ctx = format!("large n={} t={} {kind:?} |R|={}", c.n, c.t, members.len());
+        match r {
+            Ok(node) => {
+                o.count("states", 1);
+                o.count("traces", 1);
+                check_links::<C>(&mut o, &tag, if kind == RKind::Dealer { "dealer-refresh" } else { "dkg-refresh" }, &ctx, &node, &vk0, false);
+                // the last t members sign; a mix (first of them on its old share) fails
+                let s: Vec<_> = members.iter().rev().take(c.t as usize).rev().copied().collect();
+                super::c01::session_check::<C>(&mut o, &tag, &node.kps, &node.pkp, &s, &message(2), "large");
+                let mut kps = node.kps.clone();
+                kps.insert(s[0], root.kps[&s[0]].clone());
+                match mixed_attempt::<C>(&kps, &node.pkp, &s, &message(2), "largemix") {
+                    Ok(true) => o.fail(format!("{tag}/old-new-mix-signs"), ctx.clone()),
+                    Ok(false) => o.count("mixes_rejected", 1),
+                    Err(e) => o.fail(format!("{tag}/MACHINERY-mix"), e),
+                }
+            }
+            Err(e) => o.fail(format!("{tag}/{kind:?}-refresh-failed"), format!("{ctx}: {e}")),
+        }
+    }
+    o.class("large");
+    o
+}
+
 fn run_case<C: Suite>(c: &Case) -> Outcome {
     if c.tiny_all {
         return run_tiny_all::<C>(c);
+    }
+    if c.large {
+        return run_large::<C>(c);
     }
     let mut o = Outcome::new();
     let tag = format!("C10/{}", C::name());
